@@ -70,6 +70,7 @@ PROPS = {
                     'a token with prefix INT[ / FLOAT[ / BOOL[ is a vector literal: without the closing bracket, or with an element that is not of the type, the EXEC stack is unchanged (dropped, neighbours undisturbed), '
                     'otherwise the vector whose i-th element is the value of the i-th comma-separated piece is front-pushed at the open list; "(" pushes an empty list there and opens it (depth+1); ")" closes it (depth-1, ignored at depth 0); '
                     'any other token becomes exactly one item, classified in the documented order registered instruction / integer / float / TRUE / FALSE / name, front-pushed at the open list, depth unchanged. '
+                    'WHOLE INPUT: parse_program ensures tokens_effect(str_words(code), EXEC before, 0, EXEC after, d): the per-token effects applied to the words of the input in their order, starting at depth 0 (loop invariant over the words already consumed; no token is skipped, repeated or reordered). '
                     'The str operations are read through the R15 wrappers (bodies = the original expressions): starts_with is the prefix relation, `&s[k..]` drops k characters after an ASCII prefix, strip_suffix removes the suffix; '
                     'what split_whitespace yields, what split(",") yields and what parses as i32 / f32 are uninterpreted functions of the characters',
         not_decided=['whole-tree isomorphism parse(render(t)) == t: it needs the meaning of split_whitespace over a rendered program (which substrings are the tokens), which no installed verifier can reason about '
